@@ -50,6 +50,8 @@ def _targets():
         "cond_c": (F.cond_c, (f32(0.3), np.bool_(True)), [("y",)], [(("tup", ("c", "v")), ("mh", "mala", "hmc"))]),
         "cond_c_false": (F.cond_c, (f32(0.3), np.bool_(False)), [("y",)], [(("dict", (("c", ("str", "v")),)), ("mh", "mala"))]),
         "mixture": (mixture, (f32(0.0),), [("c", "v")], [(("str", "z"), ("mh",))]),
+        # a latent inside a sub-call of a Cond branch (shared address at depth 2), condition True
+        "cond_nested_c": (F.cond_nested_c, (f32(0.3), np.bool_(True)), [("y",)], [(("tup", ("c", "s", "v")), ("mh", "mala", "hmc"))]),
     }
     return T
 
@@ -127,7 +129,7 @@ def work(item, tier, seed):
         handler_stack.clear()
         res.violate(PROP, f"simulate-raises:{tname}", error=str(ex)[:300])
         return res
-    if observed:
+    if observed and tname != "cond_nested_c":
         # observed addresses are constrained through generate (so a Cond holds the observation
         # in both branches); the latent values are those of the corner traces
         starts2 = []
